@@ -47,6 +47,8 @@ fn handle(toks: &[&str]) -> String {
         "exe" => l1::exe(&toks[1..]).unwrap_or_else(|| "bad-op".to_string()),
         "exefile" => l1::exefile(&toks[1..]).unwrap_or_else(|| "bad-op".to_string()),
         "filt" => l1::filt(&toks[1..]).unwrap_or_else(|| "bad-op".to_string()),
+        "omap" => l1::omap(&toks[1..]).unwrap_or_else(|| "bad-op".to_string()),
+        "linksz" => mitm::linksz(&toks[1..]).unwrap_or_else(|| "bad-op".to_string()),
         "rpd" => l1::rpd(&toks[1..]).unwrap_or_else(|| "bad-op".to_string()),
         _ => "bad-op".to_string(),
     }
